@@ -209,19 +209,29 @@ def split_impl(line):
     return a.strip(), 'ok P' + rest
 
 
-def same(impl_obs, model_obs):
-    ta, tb = impl_obs.split(), model_obs.split()
-    if len(ta) != len(tb):
-        return False
-    for x, y in zip(ta, tb):
-        if x == y:
-            continue
-        if len(x) != len(y):
+def hex_match(x, y):
+    return len(x) == len(y) and all(cy == '?' or cx == cy for cx, cy in zip(x, y))
+
+
+def tok_same(x, y, strict):
+    """x: implementation token, y: model token.  strict=False compares only what the property talks
+    about (a section must be big enough and hold the right bytes); strict=True also demands the
+    model's exact allocation size (faithfulness of the model to the size pass)."""
+    if y.count(':') == 2 and '/' in y.split(':')[1] and x.count(':') == 2:
+        hx, ax, bx = x.split(':')
+        hy, ay, by = y.split(':')
+        alloc, need = ay.split('/')
+        if hx != hy or not ax.lstrip('-').isdigit():
             return False
-        for cx, cy in zip(x, y):
-            if cy != '?' and cx != cy:
-                return False
-    return True
+        if strict:
+            return ax == alloc and hex_match(bx, by)
+        return int(ax) >= int(need) and hex_match(bx[:2 * int(need)], by[:2 * int(need)])
+    return x == y or hex_match(x, y)
+
+
+def same(impl_obs, model_obs, strict=True):
+    ta, tb = impl_obs.split(), model_obs.split()
+    return len(ta) == len(tb) and all(tok_same(x, y, strict) for x, y in zip(ta, tb))
 
 
 def model_lines(model, cases, impl_out):
@@ -238,7 +248,7 @@ def first_diff(a, b):
     for x, y in zip(ta, tb):
         if y in ('P', 'S', 'LR') or y.startswith('J:'):
             sect = y
-        if not same(x, y):
+        if not tok_same(x, y, True):
             what = {'P': 'item offset/section head', 'S': 'section size or contents', 'LR': 'label reference value'}.get(
                 sect, 'jmpi through label table' if y.startswith('J:') else 'outcome')
             return '%s: implementation %s, model %s' % (what, x[:80], y[:80])
@@ -260,17 +270,17 @@ def correspond(impl, model, cases, env=None):
     return bad, o1
 
 
-def fails(impl, model, c, env=None):
+def fails(impl, model, c, env=None, strict=True):
     a = impl_line(impl, c, env)
     if a.startswith('badcase'):
         return False
     b = vlib.run_lines(model, [c + ' @ ' + split_impl(a)[0]])[1]
     if not b or b[0].startswith('modelerror'):
         return False
-    return not same(split_impl(a)[1], b[0])
+    return not same(split_impl(a)[1], b[0], strict)
 
 
-def shrink(impl, model, c, env=None):
+def shrink(impl, model, c, env=None, strict=True):
     """drop items (renumbering references) while the disagreement persists"""
     hd, body = c.split(':', 1)
     items = [s.strip() for s in body.split(';') if s.strip()]
@@ -310,7 +320,7 @@ def shrink(impl, model, c, env=None):
             if cand is None or not cand:
                 continue
             cc = hd + ': ' + ' ; '.join(cand)
-            if fails(impl, model, cc, env):
+            if fails(impl, model, cc, env, strict):
                 items = cand
                 changed = True
                 break
@@ -363,20 +373,32 @@ def run(chk):
     bad, outs = correspond(impl, model, cases)
     for o in outs:
         chk.dist('impl_outcome', o.split()[0] if o else 'empty')
-    nsec = sum(o.count(':') for o in outs)
+    # disagreements on what the property talks about come first; a disagreement only on the exact
+    # allocation size means the model no longer mirrors the size pass (tie broken, no failing input)
+    prop_bad = [x for x in bad if not same(split_impl(x[1])[1], x[2], strict=False)]
     seen = set()
-    for c, a, b in bad[:30]:
-        small = shrink(impl, model, c)
+    for c, a, b in prop_bad[:30]:
+        small = shrink(impl, model, c, strict=False)
         if small in seen:
             continue
         seen.add(small)
         ia = impl_line(impl, small)
         mb = vlib.run_lines(model, [small + ' @ ' + split_impl(ia)[0]])[1][0]
-        sig = 'diff:' + small
-        chk.finding(sig, dict(case=small, impl=ia, model=mb, original=c),
+        chk.finding('diff:' + small, dict(case=small, impl=ia, model=mb, original=c),
                     'C14 %s on: %s' % (first_diff(split_impl(ia)[1], mb), small))
         if len(seen) >= 3:
             break
+    if bad and not prop_bad:
+        c, a, b = bad[0]
+        small = shrink(impl, model, c)
+        ia = impl_line(impl, small)
+        mb = vlib.run_lines(model, [small + ' @ ' + split_impl(ia)[0]])[1][0]
+        chk.finding('tie:alloc-size', dict(correspondence='C14 size pass (sec_alloc) vs malloc size', case=small,
+                                           impl=ia, model=mb, disagreements=len(bad),
+                                           searched='%d item sequences: every section was large enough and held the '
+                                                    'right bytes at the right offsets' % len(cases)),
+                    'C14 model/implementation tie broken (%s) but no property failure found; e.g. %s' % (
+                        first_diff(split_impl(ia)[1], mb), small), no_input=True)
     if not quick and not bad:
         try:
             impl_asan = vlib.build_harness('c14_data', ['c14_data.c'], variant='asan')
